@@ -173,13 +173,14 @@ class DensityMatrix(StateRepresentationBase):
             if measurement_determinism == "probabilistic":
                 outcome = numpy.random.choice([0, 1], p=probs / np.sum(probs))
             elif measurement_determinism == 1:
-                if probs[1] > 0:
+                # the probabilities are traces of floating-point products: compare with zero up to a tolerance
+                if not np.isclose(probs[1], 0.0):
                     outcome = 1
                 else:
                     outcome = 0
 
             elif measurement_determinism == 0:
-                if probs[1] < 1:
+                if not np.isclose(probs[0], 0.0):
                     outcome = 0
                 else:
                     outcome = 1
